@@ -3,8 +3,33 @@
 import json, os
 ROOT = os.path.dirname(os.path.dirname(os.path.abspath(__file__)))
 
+GFI_NOTE = ("Trusted: Coq kernel; hand-written Gallina model coq/Model/Gfi.v of core.py's Distribution/Fn+handlers/Cond "
+            "(Vmap and Scan modelled as lane-wise / step-wise calls over ALane addresses, coq/Model/Ast.v); the model is tied to "
+            "/repo by the correspondence check (harness/worker_gfi.py runs the implementation through the JAX-0.11 API-rename overlay; "
+            "coq/Model/Corr.v evaluates model and spec on the same cases with vm_compute). Log densities are integers (Z); "
+            "JAX vmap/scan/where and float arithmetic are oracles. No axioms (Print Assumptions: closed).")
 CLAIMED = {
     # pid: (level text, level note, technique, design_ref)
+    "C01": ("Theorems for ALL programs of the HOAS model (any nesting of dist/@gen/Cond, Vmap/Scan via compile), all arguments, all outcomes of all draws: "
+            "assess = sum of site log-probabilities + return value (C01_assess_is_density); every trace of simulate has score = -density of its choices and the right "
+            "return value (C01_simulate_coherent); address collisions raise. The 'distributed according to that density' (law) clause is not mechanised (partial). "
+            "Correspondence: random programs run on implementation and model, eager and jit.",
+            GFI_NOTE, "Coq proof by mutual induction over program syntax + differential correspondence (vm_compute)", "7/C01"),
+    "C02": ("Theorem C02_generate for all programs/constraints/outcomes: coherent trace, every constrained visited site holds its constrained value, "
+            "weight = sum of log-probabilities of exactly the constrained sites; corollaries none=>0, all=>density, unbound sub-call contributes 0. "
+            "The unbiasedness-of-exp(weight) clause is not mechanised (partial).",
+            GFI_NOTE, "Coq proof by mutual induction over program syntax + differential correspondence (vm_compute)", "7/C02"),
+    "C03": ("Theorems for all programs: the updated trace is coherent under the new arguments; weight = log p(new) - log p(old) (static address skeleton), "
+            "including Cond flips (after the fix commit); telescoping. The frame/discard/round-trip clauses are judged per case by the correspondence "
+            "(upd_spec); the full frame statement is refuted for Cond flips (known finding K1, witness theorem C03_frame_full_refuted).",
+            GFI_NOTE, "Coq proof by mutual induction over program syntax + differential correspondence (vm_compute)", "7/C03"),
+    "C04": ("Theorems for all programs/selections/outcomes: regenerated trace coherent; weight = density change minus selected-prior change when no Cond flips; "
+            "all-selected => 0; none-selected => plain ratio. Frame, discard and definedness are judged per case by the correspondence (regen_spec).",
+            GFI_NOTE, "Coq proof by mutual induction over program syntax + differential correspondence (vm_compute)", "7/C04"),
+    "C05": ("Theorem C05_history_coherent: after ANY finite history of update/regenerate/mh-shaped/mala-hmc-shaped moves (accepted or rejected) and identity round trips "
+            "the trace is coherent w.r.t. its recorded arguments (induction over the history); update weights telescope. 'Observed addresses keep their values' is judged "
+            "per case by the correspondence only.",
+            GFI_NOTE, "Coq proof by induction over histories (fold over ops) + differential correspondence (vm_compute)", "7/C05"),
 }
 PENDING_REASON = "check not built yet in this session (planned; see DESIGN.md section 7)"
 
